@@ -5,7 +5,6 @@ panel; the property clauses are then evaluated on the REAL code by comparing its
 variants of the same data (containers are built here with plain pandas / numpy, never with the library's converters;
 permutations / selections are made on plain python lists before the container is built).
 """
-import itertools
 import random
 
 import numpy as np
